@@ -19,20 +19,20 @@ import (
 // every read/write/flush call index), everything else stays random.
 
 type lcEpoch struct {
-	id            int
-	openedBy      string
-	faultKind     string // "", "eof", "err"
-	faultAt       int
-	faultConsumed bool
-	consumedStep  int
-	userClose     bool
-	streamClosed  bool
-	closedStep    int
-	values        []error
-	chanClosed    bool
-	watched       bool
-	planned       bool
-	monIdleAtClose bool
+	id              int
+	openedBy        string
+	faultKind       string // "", "eof", "err"
+	faultAt         int
+	faultConsumed   bool
+	consumedStep    int
+	userClose       bool
+	streamClosed    bool
+	closedStep      int
+	values          []error
+	chanClosed      bool
+	watched         bool
+	planned         bool
+	monIdleAtClose  bool
 	monAliveAtClose bool
 }
 
@@ -49,28 +49,28 @@ type lcMonEvent struct {
 }
 
 type lifecycle struct {
-	rc     *RunCtx
-	s      *simrt.Sim
-	st     *SimStream
-	tr     frugal.FTransport
-	epochs []*lcEpoch
-	mon    []lcMonEvent
-	monTask string
+	rc                        *RunCtx
+	s                         *simrt.Sim
+	st                        *SimStream
+	tr                        frugal.FTransport
+	epochs                    []*lcEpoch
+	mon                       []lcMonEvent
+	monTask                   string
 	monSet, monAlive, monBusy bool
-	maxAtt  uint
-	initW, maxW time.Duration
-	openFailsLeft int
-	closeFailsLeft int
-	enumPoint int
-	enumKind  string
-	enumUsed  bool
-	nFaultEpochs int
-	inbound   []byte
-	reqN      int
-	userOps   []string
-	afterOpen func()
-	closeWhileBusy bool
-	openWhileOpen map[string]bool
+	maxAtt                    uint
+	initW, maxW               time.Duration
+	openFailsLeft             int
+	closeFailsLeft            int
+	enumPoint                 int
+	enumKind                  string
+	enumUsed                  bool
+	nFaultEpochs              int
+	inbound                   []byte
+	reqN                      int
+	userOps                   []string
+	afterOpen                 func()
+	closeWhileBusy            bool
+	openWhileOpen             map[string]bool
 }
 
 type recMonitor struct {
@@ -553,15 +553,15 @@ func lifecycleHarness(rc *RunCtx) {
 	}
 	var opLog []string
 	type opRes struct {
-		kind    string
-		settled bool
-		err     error
-		b       bool
-		expOpen bool
-		det     bool
-		monBusy bool
+		kind                  string
+		settled               bool
+		err                   error
+		b                     bool
+		expOpen               bool
+		det                   bool
+		monBusy               bool
 		openFault, closeFault bool
-		idx     int
+		idx                   int
 	}
 	var results []opRes
 	typeID := func(err error) int {
